@@ -140,9 +140,13 @@ impl Builtins {
                                 pos.clone(),
                             )
                         })?;
+                        // The file is being imported from here on: anything it
+                        // imports (directly or not) that leads back to it is a cycle.
+                        let mut nested_stack = import_stack.clone();
+                        nested_stack.push(path.clone());
                         let mut vm =
                             VM::with_pointer(self.strict, op_pointer, base_path)
-                                .with_import_stack(import_stack.clone());
+                                .with_import_stack(nested_stack);
                         vm.run(env)?;
                         let result = Rc::new(vm.symbols_to_tuple(true));
                         env.borrow_mut()
